@@ -45,7 +45,7 @@ NAMES = storegen.NAMES_PLAIN + storegen.NAMES_UUIDISH
 
 # ---------------------------------------------------------------------------------------
 def correspondence(ctx):
-    n_hist = ctx.budget(10, 120)
+    n_hist = ctx.budget(30, 240)
     steps = ctx.budget(45, 70)
     disagreements = []
     total = 0
@@ -377,7 +377,7 @@ def _name_is_sibling_id(ctx):
 
 
 def oracle(ctx, broken, hints):
-    n = ctx.budget(6, 60) * (4 if broken else 1)
+    n = ctx.budget(14, 100) * (4 if broken else 1)
     steps = ctx.budget(50, 90)
     failures = []
     evals = 0
